@@ -107,6 +107,19 @@ pub fn addrnew(args: &[&str]) -> Option<Vec<String>> {
         ),
         Err(e) => err_kind(e),
     };
+    // the object form of the deserializer (`{"user": .., "domain": ..}`) accepts only what `Address::new` accepts, as the same value
+    let js = serde_json::json!({ "user": u, "domain": d }).to_string();
+    let de = serde_json::from_str::<Address>(&js);
+    let same = match (&de, res.starts_with("ok")) {
+        (Ok(a), true) => res == format!("ok:{}:{}:{}", hex(a.user().as_bytes()), hex(a.domain().as_bytes()), hex(a.to_string().as_bytes())),
+        // the object form borrows its strings, so it refuses parts that need a JSON escape: refusing is always safe, accepting
+        // what `new` refuses (or accepting it as something else) is not
+        (Err(_), _) => true,
+        (Ok(_), false) => false,
+    };
+    if !same {
+        return Some(vec![format!("ctor-differs:deserialize-map:{}", de.is_ok()), "-".into(), env_for(&[&u, &d], &[&d])]);
+    }
     // what parsing the joined string says (the property: accepts exactly when parsing does)
     let joined = format!("{u}@{d}");
     let pres = match joined.parse::<Address>() {
